@@ -535,7 +535,7 @@ Proof. intros [[] i] m; cbn; discriminate. Qed.
 
 Lemma Inv_reset : forall st, Inv st -> l_lv st = [] -> Inv (reset_block st) /\ BlockStart (reset_block st).
 Proof.
-  intros st [A B C C' D E F G] Hl.
+  intros st [A B C C' D E F G LA LM] Hl.
   assert (NoM : forall r m, alook r (stale_rf (l_rf st)) <> Some (Rg BM m)).
   { intros r m H. rewrite alook_stale in H. destruct (alook r (l_rf st)) as [g|]; cbn in H; [|discriminate].
     inv_ok H. eapply stale1_not_M; eauto. }
@@ -546,6 +546,7 @@ Proof.
       inv_ok H. destruct (C _ _ Eg) as [(m & ->)| ->]; right; reflexivity.
     + intros r r' m H. exfalso. eapply NoM; eauto.
     + intros g [].
+    + apply repeat_length.
   - constructor; cbn; auto.
 Qed.
 
